@@ -45,6 +45,7 @@ static inline void *pw_fresh(size_t sz)
         PW_AT_H(STMT);                                                                        \
     } while (0)
 
+#ifndef PW_COUNT_ONLY_VECTORS
 #define VVEC_DECL(NAME, T)                                                                    \
     typedef struct                                                                            \
     {                                                                                         \
@@ -79,6 +80,11 @@ static inline void *pw_fresh(size_t sz)
         v->d[v->n] = x;                                                                       \
         v->n = v->n + 1;                                                                      \
     }                                                                                         \
+    static inline void NAME##_pop_back(NAME *v)                                               \
+    {                                                                                         \
+        MODEL_ASSERT(v->n != 0, "std::vector::pop_back on an empty vector (undefined behaviour)"); \
+        v->n = v->n - 1;                                                                      \
+    }                                                                                         \
     static inline void NAME##_clear(NAME *v) { v->n = 0; }                                   \
     static inline void NAME##_reserve(NAME *v, size_t k) { (void)v; (void)k; }               \
     static inline void NAME##_erase_pos(NAME *v, size_t i)                                    \
@@ -106,9 +112,12 @@ static inline void *pw_fresh(size_t sz)
         v->n = n + 1;                                                                         \
     }
 
+#endif
 /* v.at(i) / v[i] as lvalue expressions (the assertion stands for std::out_of_range / UB) */
+#ifndef PW_COUNT_ONLY_VECTORS
 #define VEC_AT(T, v, i) ((v)->d[vec_checked_index((i), (v)->n, 1)])
 #define VEC_INDEX(T, v, i) ((v)->d[vec_checked_index((i), (v)->n, 0)])
+#endif
 static inline size_t vec_checked_index(size_t i, size_t n, bool at)
 {
     if (at)
@@ -167,6 +176,36 @@ static inline size_t vit_checked_index(size_t i, size_t n)
         B second;                                                                             \
     } NAME;
 
+/* ---- abstract map (an OVER-approximation): membership and stored values are unconstrained, so
+ * every behaviour of the real std::map is included.  Only for code whose obligation does not
+ * depend on the map's content (the importer's model library in C15).  VMAP_VAL_OK constrains a
+ * looked-up value to the harness's object universe.                                          */
+#ifndef VMAP_VAL_OK
+#define VMAP_VAL_OK(v) 1
+#endif
+#define VMAP_DECL(NAME, K, V, PAIR)                                                           \
+    typedef struct                                                                            \
+    {                                                                                         \
+        size_t n;                                                                             \
+    } NAME;                                                                                   \
+    typedef PAIR NAME##_elem_t;                                                               \
+    V nondet_##NAME##_value(void);                                                            \
+    static inline NAME NAME##_new(void) { return (NAME){0}; }                                 \
+    static inline bool NAME##_keyeq(NAME a, NAME b) { return a.n == b.n; }                    \
+    static inline size_t NAME##_size(const NAME *m) { return m->n; }                         \
+    static inline size_t NAME##_count(const NAME *m, K k) { (void)m; (void)k; return nondet_bool() ? 1 : 0; } \
+    static inline void NAME##_insert_1(NAME *m, PAIR p) { (void)p; m->n = nondet_size_t(); }  \
+    static inline void NAME##_emplace(NAME *m, K k, V v) { (void)k; (void)v; m->n = nondet_size_t(); } \
+    static inline V *NAME##_index(NAME *m, K k)                                               \
+    {                                                                                         \
+        (void)k;                                                                              \
+        m->n = nondet_size_t();                                                               \
+        V *cell = (V *)pw_fresh(sizeof(V));                                                   \
+        *cell = nondet_##NAME##_value();                                                      \
+        __CPROVER_assume(VMAP_VAL_OK(*cell));                                                 \
+        return cell;                                                                          \
+    }
+
 /* ---- strings as identities (sid): equal iff same id; "" is 0 -------------------------------
  * exact for code that only assigns, compares and tests emptiness                            */
 typedef uint64_t sid;
@@ -174,6 +213,23 @@ static inline sid sid_new(void) { return 0; }
 static inline bool sid_empty(const sid *s) { return *s == 0; }
 static inline bool sid_eq(sid a, sid b) { return a == b; }
 #define SID_INIT(s) SID_OF(s)
+/* concatenation: empty operands are neutral; otherwise some non-empty string (which one is unconstrained:
+ * an over-approximation that keeps exactly what identity-strings can say - emptiness)          */
+#ifdef CBMC
+uint64_t nondet_sid_concat(void);
+static inline sid sid_concat(sid a, sid b)
+{
+    if (a == 0)
+        return b;
+    if (b == 0)
+        return a;
+    sid r = nondet_sid_concat();
+    __CPROVER_assume(r != 0);
+    return r;
+}
+#else
+static inline sid sid_concat(sid a, sid b) { return a == 0 ? b : (b == 0 ? a : a * 1000003u + b); }
+#endif
 
 /* ---- object heap --------------------------------------------------------------------------*/
 #ifndef HEAP_N
